@@ -1543,6 +1543,8 @@ def evaluate__function_name(self: XPathFunction, context: ta.ContextType = None)
 
     if not isinstance(func, XPathFunction):
         raise self.error('XPTY0004', "argument is not a function")
+    elif func.label in ('map', 'array') or func.symbol in ('map', 'array', '['):
+        return []  # maps and arrays are anonymous functions
     else:
         name = func.qname
         return [] if name is None else name
